@@ -15,6 +15,13 @@ import (
 	"golang.org/x/tools/go/ssa"
 )
 
+// PoisonV: a ghost query that has no answer on this path (e.g. ret(f) when f was not called). It propagates
+// through operators and becomes an unconstrained boolean, so a clause can only be proved where its guard
+// excludes the path.
+type PoisonV struct{}
+
+func (PoisonV) GoType() types.Type { return nil }
+
 type NilV struct{}
 
 func (NilV) GoType() types.Type { return types.Typ[types.UntypedNil] }
@@ -91,6 +98,9 @@ func (sc *specCtx) load(p PtrV) Value {
 
 func (x *Exec) evalBool(sc *specCtx, e ast.Expr) Term {
 	v := x.evalSpec(sc, e)
+	if _, ok := v.(PoisonV); ok {
+		return x.sym.fresh("undefined", SBool)
+	}
 	s, ok := v.(Scalar)
 	if !ok || s.T.Sort != SBool {
 		panic(engineErr("spec expression %s is not boolean", exprString(e)))
@@ -143,8 +153,14 @@ func (x *Exec) evalSpec(sc *specCtx, e ast.Expr) Value {
 			}
 		}
 		base := x.evalSpec(sc, e.X)
+		if _, ok := base.(PoisonV); ok {
+			return base
+		}
 		return x.selectField(sc, base, e.Sel.Name)
 	case *ast.StarExpr:
+		if _, ok := x.evalSpec(sc, e.X).(PoisonV); ok {
+			return PoisonV{}
+		}
 		p, ok := x.evalSpec(sc, e.X).(PtrV)
 		if !ok {
 			panic(engineErr("deref of non-pointer in spec: %s", exprString(e)))
@@ -152,6 +168,9 @@ func (x *Exec) evalSpec(sc *specCtx, e ast.Expr) Value {
 		return sc.load(p)
 	case *ast.UnaryExpr:
 		v := x.evalSpec(sc, e.X)
+		if _, ok := v.(PoisonV); ok {
+			return v
+		}
 		switch e.Op {
 		case token.NOT:
 			return Scalar{not(v.(Scalar).T), boolT}
@@ -166,6 +185,9 @@ func (x *Exec) evalSpec(sc *specCtx, e ast.Expr) Value {
 	case *ast.IndexExpr:
 		base := x.evalSpec(sc, e.X)
 		idx := x.evalSpec(sc, e.Index)
+		if isPoison(base) || isPoison(idx) {
+			return PoisonV{}
+		}
 		return x.specIndex(sc, base, idx)
 	case *ast.CallExpr:
 		return x.evalSpecCall(sc, e)
@@ -403,6 +425,9 @@ func (x *Exec) evalBinary(sc *specCtx, e *ast.BinaryExpr) Value {
 	}
 	a := x.evalSpec(sc, e.X)
 	b := x.evalSpec(sc, e.Y)
+	if isPoison(a) || isPoison(b) {
+		return PoisonV{}
+	}
 	if e.Op == token.EQL || e.Op == token.NEQ {
 		t := x.specEqual(a, b)
 		if e.Op == token.NEQ {
@@ -497,7 +522,24 @@ func (x *Exec) specEqual(a, b Value) Term {
 
 // ---------- spec calls ----------
 
-func (x *Exec) evalSpecCall(sc *specCtx, e *ast.CallExpr) Value {
+type poisonSignal struct{}
+
+func isPoison(v Value) bool { _, ok := v.(PoisonV); return ok }
+
+func (x *Exec) evalSpecCall(sc *specCtx, e *ast.CallExpr) (res Value) {
+	defer func() {
+		if r := recover(); r != nil {
+			if _, ok := r.(poisonSignal); ok {
+				res = PoisonV{}
+				return
+			}
+			panic(r)
+		}
+	}()
+	return x.evalSpecCall2(sc, e)
+}
+
+func (x *Exec) evalSpecCall2(sc *specCtx, e *ast.CallExpr) Value {
 	name := ""
 	switch f := e.Fun.(type) {
 	case *ast.Ident:
@@ -506,7 +548,13 @@ func (x *Exec) evalSpecCall(sc *specCtx, e *ast.CallExpr) Value {
 		// method-like spec calls are not supported; fall through to error
 		name = exprString(f)
 	}
-	arg := func(i int) Value { return x.evalSpec(sc, e.Args[i]) }
+	arg := func(i int) Value {
+		v := x.evalSpec(sc, e.Args[i])
+		if isPoison(v) {
+			panic(poisonSignal{})
+		}
+		return v
+	}
 	argT := func(i int) Term {
 		s, ok := arg(i).(Scalar)
 		if !ok {
@@ -884,6 +932,8 @@ func (x *Exec) matchEvent(sc *specCtx, f ast.Expr, ev *Event) Term {
 		// recv.Method
 		base := x.evalSpec(sc, f.X)
 		switch b := base.(type) {
+		case PoisonV:
+			return tFalse
 		case IfaceV:
 			if ev.Method != f.Sel.Name {
 				// may be a statically dispatched method on a known dynamic type
@@ -992,7 +1042,11 @@ func (x *Exec) definiteEvents(sc *specCtx, f ast.Expr) []*Event {
 			out = append(out, ev)
 		case "false":
 		default:
-			panic(engineErr("event match for %s is not definite", exprString(f)))
+			if x.entails(sc.st, m) {
+				out = append(out, ev)
+			} else if !x.entails(sc.st, not(m)) {
+				panic(engineErr("event match for %s is not definite", exprString(f)))
+			}
 		}
 	}
 	return out
@@ -1026,19 +1080,18 @@ func (x *Exec) ghostEventQuery(sc *specCtx, kind string, args []ast.Expr) Value 
 		ri := intArg(1, 0)
 		occ := intArg(2, 1)
 		if occ < 1 || occ > len(evs) {
-			// no such call on this path: an unconstrained value would be unsound to assert on, so fail loudly
-			panic(engineErr("ret(%s): no call #%d on this path (guard with calls(...)==n ==> ...)", exprString(args[0]), occ))
+			return PoisonV{}
 		}
 		ev := evs[occ-1]
 		if ri >= len(ev.Results) {
-			panic(engineErr("ret(%s): result index out of range (panicked call?)", exprString(args[0])))
+			return PoisonV{}
 		}
 		return ev.Results[ri]
 	case "arg":
 		ai := intArg(1, 0)
 		occ := intArg(2, 1)
 		if occ < 1 || occ > len(evs) {
-			panic(engineErr("arg(%s): no call #%d on this path", exprString(args[0]), occ))
+			return PoisonV{}
 		}
 		ev := evs[occ-1]
 		if ai >= len(ev.Args) {
